@@ -71,6 +71,7 @@ fn parse_script(s: &str) -> VecDeque<Act> {
             b'k' => Act::Cap(usize::MAX), // flush ok
             b'i' => Act::Fail(ErrorKind::Interrupted),
             b'o' => Act::Fail(ErrorKind::Other),
+            b'b' => Act::Fail(ErrorKind::WouldBlock),
             _ => panic!("bad script token"),
         };
         v.push_back(a);
